@@ -44,7 +44,10 @@ Inductive sop := SCheck (t : item) | SPre (t : item) | SReopen.
    (0 absent, 1 "seed", 2 "asset", 3 other), the number of records written by the step, the ids
    of the nodes that carry a request *)
 Record sobs := SO { so_tree : item; so_store : list (N * N); so_count : N; so_req : list N }.
-Record scase := SC { sc_steps : list (sop * sobs); sc_keys : list (N * N) }.
+(* [sc_off]: the OPERATOR switched the seencheck off (--disable-seencheck); every other combination
+   of operator flags leaves it on.  The configuration the code runs with comes from the real
+   GenerateCrawlConfig. *)
+Record scase := SC { sc_steps : list (sop * sobs); sc_keys : list (N * N); sc_off : bool }.
 
 (* URLs are interned canonical strings; the driver checks that fnv64a is injective on them *)
 Definition hid (u : N) : N := u.
@@ -57,29 +60,31 @@ Definition store_matches (s : store) (obs : list (N * N)) : bool :=
 Definition req_pred (d : nat) (t' : item) : list N :=
   map id_of (filter (fun n => status_eqb (st_of n) PreProcessed) (nodes_at d t')).
 
-Fixpoint replay (s : store) (steps : list (sop * sobs)) : bool :=
+Definition no_seencheck (s : store) (t : item) : store * item := (s, t).
+
+Fixpoint replay (off : bool) (s : store) (steps : list (sop * sobs)) : bool :=
   match steps with
   | [] => true
   | (o, ob) :: r =>
     match o with
-    | SReopen => store_matches s (so_store ob) && replay s r
+    | SReopen => store_matches s (so_store ob) && replay off s r
     | SCheck t =>
       let '(s', t') := seencheck_item hid s t in
       item_eqb t' (so_tree ob) && store_matches s' (so_store ob)
       && (N.of_nat (length s' - length s) =? so_count ob)
-      && listN_eqb [] (so_req ob) && replay s' r
+      && listN_eqb [] (so_req ob) && replay off s' r
     | SPre t =>
-      match pre_core (seencheck_item hid) s t with
+      match pre_core (if off then no_seencheck else seencheck_item hid) s t with
       | None => false
       | Some (s', t') =>
         item_eqb t' (so_tree ob) && store_matches s' (so_store ob)
         && (N.of_nat (length s' - length s) =? so_count ob)
-        && listN_eqb (req_pred (max_depth t) t') (so_req ob) && replay s' r
+        && listN_eqb (req_pred (max_depth t) t') (so_req ob) && replay off s' r
       end
     end
   end.
 
-Definition diff_case (c : scase) : bool := negb (replay [] (sc_steps c)).
+Definition diff_case (c : scase) : bool := negb (replay (sc_off c) [] (sc_steps c)).
 Definition diffs (l : list scase) := bad_idx diff_case l.
 
 (* ---- monitors ---- *)
@@ -149,26 +154,33 @@ Definition only_level_marked (t t' : item) : bool :=
 Definition store_is_ref (ref : list (N * kind)) (obs : list (N * N)) : bool :=
   forallb (fun '(k, c) => c =? code_of (assocN k ref)) obs.
 
-Fixpoint mon_hist (prev_store : list (N * N)) (ref : list (N * kind)) (steps : list (sop * sobs)) : bool * bool * bool :=
+Fixpoint mon_hist (off : bool) (prev_store : list (N * N)) (ref : list (N * kind)) (steps : list (sop * sobs)) : bool * bool * bool :=
   match steps with
   | [] => (true, true, true)
   | (o, ob) :: r =>
     match op_tree o with
-    | None => let '(a', oo', e') := mon_hist (so_store ob) ref r in
+    | None => let '(a', oo', e') := mon_hist off (so_store ob) ref r in
               (a', oo', store_is_ref ref (so_store ob) && e')
     | Some t =>
-      let '(ref', a, oo) := mon_level (match o with SPre _ => true | _ => false end) t prev_store (so_store ob) [] ref (level_after t (so_tree ob)) in
-      let '(a', oo', e') := mon_hist (so_store ob) ref' r in
+      let pre := match o with SPre _ => true | _ => false end in
+      if pre && off then
+        (* seencheck switched off by the operator: preprocess asks no store, skips nothing, records nothing *)
+        let '(a', oo', e') := mon_hist off (so_store ob) ref r in
+        (a', forallb (fun '(n, _) => negb (skipped true n)) (level_after t (so_tree ob)) && oo',
+         store_is_ref ref (so_store ob) && e')
+      else
+      let '(ref', a, oo) := mon_level pre t prev_store (so_store ob) [] ref (level_after t (so_tree ob)) in
+      let '(a', oo', e') := mon_hist off (so_store ob) ref' r in
       (a && a', oo && only_level_marked t (so_tree ob) && oo', store_is_ref ref' (so_store ob) && e')
     end
   end.
 
 (* m0 seen_after_record *)
-Definition mon_after_record (c : scase) : bool := fst (fst (mon_hist [] [] (sc_steps c))).
+Definition mon_after_record (c : scase) : bool := fst (fst (mon_hist (sc_off c) [] [] (sc_steps c))).
 (* m1 seen_only_if_reported *)
-Definition mon_only_if_reported (c : scase) : bool := snd (fst (mon_hist [] [] (sc_steps c))).
+Definition mon_only_if_reported (c : scase) : bool := snd (fst (mon_hist (sc_off c) [] [] (sc_steps c))).
 (* m6 store_exact *)
-Definition mon_store_exact (c : scase) : bool := snd (mon_hist [] [] (sc_steps c)).
+Definition mon_store_exact (c : scase) : bool := snd (mon_hist (sc_off c) [] [] (sc_steps c)).
 
 (* m2 no_two_nonseed_same_url: after preprocess no URL is held by two non-seed nodes *)
 Definition mon_no_two (c : scase) : bool :=
@@ -214,7 +226,7 @@ Definition mons (l : list scase) :=
 Record hstep := HS {
   h_pre : bool; h_tree : item; h_sent : list (N * kind); h_asked : bool; h_reply : hq_reply; h_faithful : bool;
   h_out : hq_outcome; h_after : item; h_req : list N; h_raws : list (N * N) }.
-Record hcase := HC { hc_seen0 : list N; hc_steps : list hstep }.
+Record hcase := HC { hc_seen0 : list N; hc_steps : list hstep; hc_off : bool }.
 
 Definition outcome_eqb (a c : hq_outcome) : bool :=
   match a, c with HNoop, HNoop | HPanic, HPanic | HErr, HErr | HDone, HDone => true | _, _ => false end.
@@ -225,13 +237,21 @@ Fixpoint kinds_eqb (a c : list kind) : bool :=
   | _, _ => false
   end.
 
-Definition hstep_ok (h : hstep) : bool :=
+(* preprocess sends a request iff the seencheck is on, the working depth is not the seed's and
+   de-duplication left something there *)
+Definition pre_asks (off : bool) (t : item) : bool :=
+  negb off && negb (Nat.eqb (max_depth t) 0)
+  && match nodes_at (max_depth t) (dedupe t) with [] => false | _ => true end
+  && forallb is_fresh (nodes_at (max_depth t) t).
+
+Definition hstep_ok (off : bool) (h : hstep) : bool :=
   let rep := fun _ : list (N * kind) => h_reply h in
   if h_pre h then
-    match pre_core (fun (_ : unit) t => (tt, snd (hq_seencheck rep t))) tt (h_tree h) with
+    match pre_core (fun (_ : unit) t => if off then (tt, t) else (tt, snd (hq_seencheck rep t))) tt (h_tree h) with
     | None => false
     | Some (_, t') =>
       item_eqb t' (h_after h) && listN_eqb (req_pred (max_depth (h_tree h)) t') (h_req h)
+      && Bool.eqb (h_asked h) (pre_asks off (h_tree h))
       && (if h_asked h then kinds_eqb (map snd (hq_sent (dedupe (h_tree h)))) (map snd (h_sent h)) else true)
     end
   else
@@ -240,7 +260,7 @@ Definition hstep_ok (h : hstep) : bool :=
     && (if h_asked h then kinds_eqb (map snd (hq_sent (h_tree h))) (map snd (h_sent h))
         else match out with HNoop | HPanic => true | _ => false end).
 
-Definition hdiff_case (c : hcase) : bool := negb (forallb hstep_ok (hc_steps c)).
+Definition hdiff_case (c : hcase) : bool := negb (forallb (hstep_ok (hc_off c)) (hc_steps c)).
 Definition hdiffs (l : list hcase) := bad_idx hdiff_case l.
 
 (* ---- monitors, on the observed request / answer / statuses ---- *)
@@ -283,19 +303,24 @@ Definition hmon_like (c : hcase) : bool :=
 
 (* hm3 seen_after_record: with a faithful HQ, a node whose canonical URL was handed to the HQ by an
    earlier request (or is in its initial set) is skipped *)
-Fixpoint hmon_hist (rec : list N) (steps : list hstep) : bool :=
+Fixpoint hmon_hist (off : bool) (rec : list N) (steps : list hstep) : bool :=
   match steps with
   | [] => true
   | h :: r =>
-    let asked := if h_asked h then asked_nodes h else [] in
+    (* the nodes the HQ has to be asked about: those it was asked about, and - seencheck on - the
+       Fresh non-seed nodes preprocess holds at the working depth *)
+    let due := h_asked h || (h_pre h && negb off && negb (Nat.eqb (max_depth (h_tree h)) 0)) in
+    let asked := if due then asked_nodes h else [] in
     let ok := if h_faithful h then forallb (fun n => negb (mem (url_of n) rec) || is_seen n) asked else true in
+    (* handed over: by a request the HQ answered - or due to be handed over to a faithful HQ *)
     let rec' := match h_asked h, answer_of h with
                 | true, Some _ => map url_of asked ++ rec
+                | false, _ => if due && h_faithful h then map url_of asked ++ rec else rec
                 | _, _ => rec
                 end in
-    ok && hmon_hist rec' r
+    ok && hmon_hist off rec' r
   end.
-Definition hmon_after_record (c : hcase) : bool := hmon_hist (hc_seen0 c) (hc_steps c).
+Definition hmon_after_record (c : hcase) : bool := hmon_hist (hc_off c) (hc_seen0 c) (hc_steps c).
 
 (* hm4 seen_not_requested, hm5 no_two_nonseed_same_url: as for the local store *)
 Definition hmon_requests (c : hcase) : bool :=
